@@ -35,20 +35,28 @@ RULE = ("generated UFO-3 fonts (1-3 layers, glyphs with outlines/components/anch
         "non-trivial = at least one external edit followed by a test and at least one in-memory edit, lazy read or save; "
         "distinct = distinct (spec, structure, ops)")
 ASSUMPTIONS = [
-    "UFO format 3 only; saves are in place (font.save()); one font object per UFO; single thread",
+    "UFO format 3 only; saves are in place (font.save()); one font object per UFO; single thread; no renames of glyphs or "
+    "layers in memory; glyphs carry no components (a component's observers load its base glyph, which entangles lazy "
+    "loading with names whose files were deleted externally and not yet taken over)",
     "external edits write the bytes fontTools.ufoLib writes for a value (bytes <-> value one to one; checked at run time "
-    "after every save: stats key noncanonical must stay 0); lib.plist is never deleted externally and never empty "
-    "(public.glyphOrder, maintained by defcon on glyph creation/deletion, is outside the model)",
-    "modification times set by the harness are explicit small integers (even seconds for zip); times written by defcon "
-    "are the real clock and never equal to them",
+    "after every save and external write: stats key noncanonical must stay 0); lib.plist is never deleted externally and "
+    "never empty, and two generated lib values are never equal (public.glyphOrder, maintained by defcon on glyph "
+    "creation/deletion, is outside the model's value ids)",
+    "modification times set by the harness are explicit small integers (even seconds for zip); times written by defcon's "
+    "saves are the real clock for a package (never equal to a harness time); a zip archive is rewritten as a whole by a "
+    "save, with two-second wall-clock granularity, so the harness re-dates every entry to a time of its own right after "
+    "the save (the reader the font opened at the end of the save keeps the archive it opened)",
     "zip archives are replaced atomically (os.replace), so a reader opened earlier keeps a consistent snapshot",
-    "between an external layer deletion / default-layer change / layer addition and the next test+reload the generated "
-    "histories do not save and do not touch the glyphs of the layers concerned (the glyph-set bindings point to "
-    "moved directories until the test rebinds them)",
-    "an externally deleted glyph or layer is 'accepted' by deleting it in memory (there is no reload method for it)",
-    "layers and glyphs are not renamed in memory in these histories",
-    "glyphs carry no components (a component's observers load its base glyph, which entangles lazy loading with names "
-    "whose files were deleted externally and not yet taken over)",
+    "an external layer addition / deletion / default-layer change is followed by a test at once; unless reload and "
+    "accept-deletion follow, the histories neither save nor touch the glyphs of those layers any more; a save over a UFO "
+    "whose layer structure was changed externally and not taken over is outside the property's domain (not judged; the "
+    "model answers it `outside-the-modelled-domain`, implementation and model then stop being compared) - except that "
+    "glyph files such a save destroys are reported (finding F37)",
+    "an externally deleted glyph or layer is 'accepted' by deleting it in memory (there is no reload method for it); a layer "
+    "the font has deleted in memory is not created again externally, the default layer is never deleted",
+    "not demanded either way (conflicts the property does not speak about): a byte change under an unchanged mtime; the "
+    "same name created, or the same order/default change made, independently in memory and on disk; `order` when layers "
+    "were added or deleted; a reload driven by a report that later external edits have overtaken",
 ]
 TRUSTED = ["fontTools.ufoLib/glifLib/plistlib (used by defcon, and independently by the external editor and by the oracle's "
            "read-back)", "zipfile / os.utime for explicit modification times"]
@@ -1280,6 +1288,10 @@ def run_impl(case):
                 # (ASSUMPTIONS): not judged
                 oracle.tainted = True
             stats["op." + k] = stats.get("op." + k, 0) + 1
+            if k in ("xpart", "xglyph", "ximg", "xdat"):
+                act = op[2] if k != "xglyph" else op[3]
+                kk = "x.%s.%s%s%s" % (k[1:], act, ".keep-mtime" if op[-1] is None else "", "" if result == "ok" else ".noop")
+                stats[kk] = stats.get(kk, 0) + 1
             if st != "ok":
                 stats[st] = stats.get(st, 0) + 1
             if k == "save" and st == "ok" and impl.is_zip:
@@ -1361,6 +1373,10 @@ def run_impl(case):
                 flat = Oracle.flatten_report(r)
                 if any(v for kk, v in flat.items()):
                     nonempty += 1
+                for kk, v in flat.items():
+                    if v:
+                        name = "entry." + oracle.entry_name(kk)
+                        stats[name] = stats.get(name, 0) + 1
             # ---- record keeping (always, also after a violation, so that later steps stay meaningful) --
             oracle.after_op(i, op, before, dirty_before, st, result)
             if k in ("reload", "acceptdel") and x_since_test:
@@ -1973,7 +1989,7 @@ def gen_case(rng, tier):
 
 
 def generate(rng, tier):
-    n = 400 if tier == "quick" else 4000
+    n = 500 if tier == "quick" else 4000
     for c in witness_cases():
         yield c
     for _ in range(n):
